@@ -227,7 +227,8 @@ def df_case(draw, tier):
     return {"N": draw(st.integers(40, 300)), "fs": draw(st.sampled_from([1.0, 10.0, 0.5])), "shift": draw(st.floats(-5.0, 5.0)),
             "cols": draw(st.sampled_from([None, ["a"], ["a", "i"], ["s", "c"]])), "inplace": draw(st.booleans()),
             "truncate": draw(st.sampled_from([None, True, 3, 0])), "suffix": draw(st.sampled_from(["_shifted", "_s"])),
-            "seed": draw(st.integers(0, 2 ** 31 - 1)), "zero": draw(st.integers(0, 9)) == 9}
+            "seed": draw(st.integers(0, 2 ** 31 - 1)), "zero": draw(st.integers(0, 9)) == 9,
+            "index": draw(st.sampled_from(["range", "range", "sliced", "datetime"]))}
 
 
 def oracle_df(case):
@@ -238,6 +239,12 @@ def oracle_df(case):
     seconds = 0.0 if case["zero"] else case["shift"] / fs
     df = pd.DataFrame({"a": rng.standard_normal(N), "i": rng.integers(-9, 9, N), "c": np.cumsum(rng.standard_normal(N)),
                        "s": ["r%d" % k for k in range(N)]})
+    kind = case.get("index", "range")
+    if kind == "sliced":
+        big = pd.concat([df, df], ignore_index=True)
+        df = big.iloc[N // 2: N // 2 + N].copy()
+    elif kind == "datetime":
+        df = df.set_index(pd.date_range("2020-01-01", periods=N, freq="s"))
     before = df.copy(deep=True)
     out = df_timeshift(df, fs, seconds, columns=case["cols"], truncate=case["truncate"], inplace=case["inplace"], suffix=case["suffix"])
     viol = []
@@ -264,7 +271,8 @@ def oracle_df(case):
         if col in sel and numeric:
             exp = np.asarray(timeshift(before[col].to_numpy(), seconds * fs))[sl]
             name = col if case["inplace"] else col + case["suffix"]
-            if name not in out.columns or not np.allclose(np.asarray(out[name], float), exp, rtol=1e-13, atol=1e-300):
+            if name not in out.columns or not out.index.equals(before.index[sl]) or \
+                    not np.allclose(np.asarray(out[name], float), exp, rtol=1e-13, atol=1e-300):
                 viol.append(V("df_column_ne_timeshift", col=col, inplace=case["inplace"]))
             if not case["inplace"] and not out[col].equals(before[col].iloc[sl]):
                 viol.append(V("df_original_column_changed", col=col))
